@@ -152,6 +152,41 @@ def c_gf(p):
     raise ValueError(p)
 
 
+def c_dgf(p):
+    """the program in the derived syntax of coq/model/Derived.v (desugared by the model itself)"""
+    k = p[0]
+    if k == "dist": return f"(DDist {p[1]})"
+    if k == "static":
+        body = f"(DRet {c_expr(p[2])})"
+        for (a, g, es) in reversed(p[1]):
+            body = f"(DSite {c_addr(a)} {c_dgf(g)} {clist([c_expr(e) for e in es])} {body})"
+        return f"(DStatic {body})"
+    if k == "vmap":
+        axes = clist(["None" if a is None else f"(Some {a}%nat)" for a in p[1]])
+        return f"(DVmap {axes} {c_dgf(p[2])})"
+    if k == "scan":
+        n = "None" if p[1] is None else f"(Some {p[1]}%nat)"
+        return f"(DScan {n} {c_dgf(p[2])})"
+    if k == "switch":
+        bs = "DNil"
+        for g in reversed(p[1]):
+            bs = f"(DCons {c_dgf(g)} {bs})"
+        return f"(DSwitch {bs})"
+    if k == "mask": return f"(DMask {c_dgf(p[1])})"
+    if k == "dimap": return f"(DDimap {clist([c_expr(e) for e in p[1]])} {c_dgf(p[2])} {c_expr(p[3])})"
+    if k == "repeat": return f"(DRepeat {p[1]}%nat {c_dgf(p[2])} {p[3]}%nat)"
+    if k == "or_else": return f"(DOrElse {c_dgf(p[1])} {c_dgf(p[2])})"
+    if k == "map": return f"(DMap {c_expr(p[1])} {c_dgf(p[2])} {p[3]}%nat)"
+    if k == "contramap": return f"(DContramap {clist([c_expr(e) for e in p[1]])} {c_dgf(p[2])})"
+    if k == "iterate": return f"(DIterate {p[1]}%nat {c_dgf(p[2])})"
+    if k == "iterate_final": return f"(DIterateFinal {p[1]}%nat {c_dgf(p[2])})"
+    if k == "accumulate": return f"(DAccumulate {c_dgf(p[1])})"
+    if k == "reduce": return f"(DReduce {c_dgf(p[1])})"
+    if k == "masked_iterate": return f"(DMaskedIterate {c_dgf(p[1])})"
+    if k == "masked_iterate_final": return f"(DMaskedIterateFinal {c_dgf(p[1])})"
+    raise ValueError(p)
+
+
 # ============================================================================
 # realisation on the implementation
 # ============================================================================
